@@ -15,7 +15,7 @@ use std::collections::{HashMap, HashSet};
 pub fn def() -> PropDef {
     PropDef {
         id: "C08",
-        rule: "names: every 4-byte string over an alphabet (quick: 75 symbols = 31.6 M strings; thorough: all 128^4 ASCII) plus all strings of length 0-3 and 5 over 24 symbols, length 6 over 12 symbols, random UTF-8 and names of 256 / 512 / 65536 +- 4 bytes built around accepted names, each through all 10 bank-name parsers and 3 board-name parsers and compared with the reference grammar (accept set, meaning, injectivity); `==` of the parsed name types over all pairs of accepted names true exactly for identical strings, board / channel ids equal exactly when their digits are; maps: every run number 0..=20000 plus 2^32-1, 2^32-2, powers of two +-1 and random u32: wire map = bijection 8x32 -> 256 or all-Err below 2941, PWB map = exactly 64 installed boards on the 64 cells or all-Err below 4418, (board,chip,channel) -> pad a bijection onto 32x576 (checked in full for every run number in thorough; in quick for every distinct board-placement fingerprint and both sides of every change); simulation run == run 5000 element-wise; purity of the maps: generated histories of 2-40 wire/PWB/pad lookups over 1-3 boards and 2-4 run numbers (16 boundary run numbers) on one thread and a board-major sweep (every board, every pad, all 16 run numbers back to back, both directions), every answer equal to the answer of the same lookup in a run-major sweep made on a fresh thread; geometry: wire w belongs to pad column floor(phi(w)/(2pi/32)) and each column owns exactly its 8 wires; non-trivial = accepted names, names at Hamming distance 1 from an accepted name, run numbers within +-1 of a dispatch boundary, histories in which the same board is asked at two different run numbers back to back; distinct by value",
+        rule: "names: every 4-byte string over an alphabet (quick: 75 symbols = 31.6 M strings; thorough: all 128^4 ASCII) plus all strings of length 0-3 and 5 over 24 symbols, length 6 over 12 symbols, random UTF-8 and names of 256 / 512 / 65536 +- 4 bytes built around accepted names, each through all 10 bank-name parsers and 3 board-name parsers and compared with the reference grammar (accept set, meaning, injectivity); `==` of the parsed name types over all pairs of accepted names true exactly for identical strings, board / channel ids equal exactly when their digits are; positions: TpcWirePosition / TpcPadColumn / TpcPadRow / TpcPadPosition obtained through serde (bare index, as in the calibration files) for indices 0..2000 and around 2^8, 2^16, 2^32, 2^64: accepted exactly when TryFrom<usize> accepts, same value, same text back; maps: every run number 0..=20000 plus 2^32-1, 2^32-2, powers of two +-1 and random u32: wire map = bijection 8x32 -> 256 or all-Err below 2941, PWB map = exactly 64 installed boards on the 64 cells or all-Err below 4418, (board,chip,channel) -> pad a bijection onto 32x576 (checked in full for every run number in thorough; in quick for every distinct board-placement fingerprint and both sides of every change); simulation run == run 5000 element-wise; purity of the maps: generated histories of 2-40 wire/PWB/pad lookups over 1-3 boards and 2-4 run numbers (16 boundary run numbers) on one thread and a board-major sweep (every board, every pad, all 16 run numbers back to back, both directions), every answer equal to the answer of the same lookup in a run-major sweep made on a fresh thread; geometry: wire w belongs to pad column floor(phi(w)/(2pi/32)) and each column owns exactly its 8 wires; non-trivial = accepted names, names at Hamming distance 1 from an accepted name, run numbers within +-1 of a dispatch boundary, histories in which the same board is asked at two different run numbers back to back; distinct by value",
         assumptions: &["golden board tables in oracles::boards are the documented ones; the library tables are cross-checked against them in every direction"],
         run,
         replay,
@@ -541,6 +541,46 @@ fn board_major(r: &Run) {
     });
 }
 
+/// Every way to obtain a wire / pad-column / pad-row position denotes one of
+/// the 256 / 32 / 576 elements: the serde form (a bare index, as in the
+/// calibration files) is accepted exactly when `TryFrom<usize>` accepts the
+/// index, gives the same position, and serialises back to the same index.
+fn position_serde(r: &Run) {
+    let seed = r.seed;
+    r.enumerate("position_serde", 2_000 + 200, move |i, ev| {
+        ev.eval();
+        let idx: u64 = if i < 2_000 { i } else { [255u64, 256, 257, 31, 32, 33, 575, 576, 577, 65_535, 65_536, 65_792, 1 << 32, (1 << 32) + 5, u64::MAX][((i - 2_000) % 15) as usize].wrapping_add(mix(seed, i) % 2 * 256 * ((i - 2_000) / 15)) };
+        let text = idx.to_string();
+        macro_rules! pos {
+            ($t:ty, $n:expr, $what:expr) => {{
+                let by_index = <$t>::try_from(idx as usize).ok();
+                let by_serde: Option<$t> = serde_json::from_str(&text).ok();
+                ensure!(by_index.is_some() == (idx < $n), "position-bound", "{}::try_from({idx}) is {:?}", $what, by_index);
+                ensure!(by_serde == by_index, "position-serde", "{} deserialised from {text:?} is {:?}, TryFrom<usize> gives {:?}", $what, by_serde, by_index);
+                if let Some(p) = by_index {
+                    let back = serde_json::to_string(&p).unwrap_or_default();
+                    ensure!(back == text, "position-serde", "{} {idx} serialises to {back:?}", $what);
+                }
+            }};
+        }
+        pos!(TpcWirePosition, 256, "TpcWirePosition");
+        pos!(TpcPadColumn, 32, "TpcPadColumn");
+        pos!(alpha_g_detector::padwing::map::TpcPadRow, 576, "TpcPadRow");
+        if idx < 32 {
+            // a pad position is a (column, row) pair: out-of-range members are refused as well
+            for row in [0u64, 575, 576, 577, 1 << 20] {
+                let text = format!("{{\"column\":{idx},\"row\":{row}}}");
+                let got: Option<TpcPadPosition> = serde_json::from_str(&text).ok();
+                ensure!(got.is_some() == (row < 576), "position-serde", "TpcPadPosition deserialised from {text} is {got:?}");
+            }
+        }
+        if idx < 600 {
+            ev.nontrivial(fingerprint(&("pos", idx)));
+        }
+        Ok(())
+    });
+}
+
 fn nth_string(alpha: &[u8], len: u32, mut i: u64) -> String {
     let k = alpha.len() as u64;
     let mut s = Vec::with_capacity(len as usize);
@@ -635,6 +675,7 @@ fn run(r: &Run) {
         r.enumerate("runs_full_pad_map", n, move |i, ev| check_run(runs[i as usize], true, ev));
         r.with_ev(|ev| ev.label_n("distinct-placement-fingerprints", fps.len() as u64));
     }
+    position_serde(r);
     sim_equals_5000(r);
     geometry(r);
     board_major(r);
